@@ -3,7 +3,7 @@
     handlers [n], subscribers honouring their context or not [hon], any number of messages and
     Close callers, timeouts firing at any moment).  Flags: fix5 / fix6 / fix12 = the repairs of
     D5 / D6 / D12 (true = the code after the fix: commits). *)
-From WM Require Import Base.Prelude Router.Close Router.CloseMonitor Router.CloseProofs Router.CloseTheorems Router.CloseWitness.
+From WM Require Import Base.Prelude Router.Close Router.CloseMonitor Router.CloseProofs Router.CloseTheorems Router.CloseWitness Router.CloseRefine.
 
 (** a Close call that returned nil: no handler invocation in progress, no message in the
     pipeline (each one taken from the subscriber has been handled to completion and settled),
@@ -129,6 +129,15 @@ Theorem C06_concurrent_close :
   (forall n hon f5 f6 f12 sched, panicked (exec (init n hon f5 f6 f12) sched) = false).
 Proof. exact (conj close_exclusive no_panic). Qed.
 Print Assumptions C06_concurrent_close.
+
+(** the link between the model and the executable acceptor the check evaluates on implementation
+    histories: EVERY API trace of the repaired model (any handlers, subscribers, schedule; [trace]
+    is the function Corr/C06.v uses) is accepted - [mon_run] reports no rejection at all
+    (simulation relation between model state and acceptor state, Router/CloseRefine.v) *)
+Theorem C06_acceptor_accepts_model :
+  forall nh hp n hon f6 ls, mon_run nh hp (trace (init n hon true f6 true) ls) = [].
+Proof. exact mon_accepts_model. Qed.
+Print Assumptions C06_acceptor_accepts_model.
 
 (** the hypotheses are satisfiable and the behaviour is not trivial: a close that overlaps a
     message in the pipeline, waits for it, returns nil, with everything closed and the acceptor
